@@ -198,10 +198,10 @@ pub fn run(rep: &mut Report) {
             bgrid.push(1. + 10f64.powf(-(k as f64) / 4.));
         }
         let mut brng = rng_from(subseed(rep.seed, "C07/bracket-b", &[]));
-        for _ in 0..rep.tier.pick(24, 400) {
+        for _ in 0..rep.tier.pick(24, 160) {
             bgrid.push(1. + 10f64.powf(brng.random_range(-5.0..0.0)));
         }
-        let budget: f64 = rep.tier.pick(1.5e8, 3e9);
+        let budget: f64 = rep.tier.pick(1.5e8, 1e9);
         for &b in &bgrid {
             // the model sums about 70/ln(b) register intervals per point: for b very close to 1 a seeded subsample of the grid is used
             let keep = (budget / (1764. * 70. / b.ln())).min(1.);
